@@ -33,6 +33,8 @@ func main() {
 		rep = suiteConc(*tier, *seed, *model)
 	case "C20":
 		rep = suiteAsm(*tier, *seed, *model)
+	case "C15":
+		rep = suiteStruct(*tier, *seed, *model)
 	case "C18":
 		rep = suiteConvert(*tier, *seed, *model)
 	case "C19":
